@@ -431,8 +431,12 @@ def _event_disjunction(ctx: Ctx, r: RuleResult):
         step_ok = isinstance(body, New) and body.cls == ED and body.get('event1') == item_p and body.get('event2') == acc_p
         init_ok = isinstance(init, New) and init.cls == ED and init.get('event1') == Sub(CH, Const(-2)) and init.get('event2') == Sub(CH, Const(-1))
         rest_ok = isinstance(it, Call) and isinstance(it.func, Ext) and it.func.name == 'reversed' and it.args == (Sub(CH, SliceT(None, Const(-2), None)),)
+        # the same fold seeded with the last alternative alone: reduce(step, reversed(children[:-1]), children[-1])
+        if step_ok and init == Sub(CH, Const(-1)):
+            init_ok = True
+            rest_ok = isinstance(it, Call) and isinstance(it.func, Ext) and it.func.name == 'reversed' and it.args == (Sub(CH, SliceT(None, Const(-1), None)),)
         if step_ok and init_ok and rest_ok:
-            r.ok('event_disjunction: right fold (reduce) over the reversed prefix, seeded with the last two alternatives')
+            r.ok('event_disjunction: right fold (reduce) over the reversed prefix, seeded with the last alternative(s)')
         elif step_ok and init_ok:
             r.fail(key + ':order', f'the fold takes the remaining alternatives as {str(it)[:60]} while nesting to the right: with 3 or more alternatives their order or membership changes', fi.where)
         else:
